@@ -388,7 +388,15 @@ LargeOf(md) == IF "large" \in DOMAIN md THEN md.large ELSE {}
 WithLarge(n, on) == [n EXCEPT !.large = on]
 \* an item record with a `raw` field is an ilst child that is not an item at all (padding, a short
 \* unknown atom): its payload verbatim, no data box
-ItemNodeL(it, lg) == IF "raw" \in DOMAIN it THEN Leaf(Box(it.cc, it.raw)) ELSE WithLarge(Cont(it.cc, <<>>, <<WithLarge(Leaf(EncData([data_type |-> it.type, data |-> it.data])), "data" \in lg)>>), "item" \in lg)
+\* `pre` / `post`: the payload of a further child of the item before (a `free` box) / after (a `name` box)
+\* its data box -- an item's value is its data box, whatever else the item holds
+ItemNodeL(it, lg) ==
+  IF "raw" \in DOMAIN it THEN Leaf(Box(it.cc, it.raw))
+  ELSE WithLarge(Cont(it.cc, <<>>,
+                      (IF "pre" \in DOMAIN it THEN <<Leaf(Box(FREE, it.pre))>> ELSE <<>>)
+                      \o <<WithLarge(Leaf(EncData([data_type |-> it.type, data |-> it.data])), "data" \in lg)>>
+                      \o (IF "post" \in DOMAIN it THEN <<Leaf(Box(<<110, 97, 109, 101>>, it.post))>> ELSE <<>>)),
+                 "item" \in lg)
 ItemNode(it) == ItemNodeL(it, {})
 MetaNode(md) ==
   LET lg == LargeOf(md)
